@@ -557,6 +557,37 @@ def extract_selector(errors):
 
     guard(tables)
 
+    def comparator_shapes():
+        # C07/C08: structural reading of the AST_COMPARATORS right-hand sides (the lambdas are analysed, not quoted):
+        #   operator.<f>                                                   -> "operator.<f>"
+        #   lambda l, r: False if isinstance(l, NoneObject) or isinstance(r, NoneObject) else <E>
+        #       with <E> = operator.contains(r, l)                         -> "guarded:contains"
+        #            <E> = operator.contains(r, l) is False                -> "guarded:not-contains"
+        #   anything else                                                  -> "other:<source>"
+        v = module_assign(tree, "AST_COMPARATORS")
+        rows = []
+        for k, val in zip(v.keys, v.values):
+            kn = dotted(k)[4:]
+            shape = None
+            if isinstance(val, ast.Lambda) and len(val.args.args) == 2 and isinstance(val.body, ast.IfExp):
+                a, b = (x.arg for x in val.args.args)
+                ife = val.body
+                want_test = f"isinstance({a}, NoneObject) or isinstance({b}, NoneObject)"
+                if src(ife.test) == want_test and src(ife.body) == "False":
+                    e = src(ife.orelse)
+                    if e == f"operator.contains({b}, {a})":
+                        shape = "guarded:contains"
+                    elif e == f"operator.contains({b}, {a}) is False":
+                        shape = "guarded:not-contains"
+            if shape is None:
+                shape = (dotted(val) or "") if not isinstance(val, ast.Lambda) else ""
+                if not shape.startswith("operator."):
+                    shape = "other:" + re.sub(r"\s+", " ", src(val))[:60]
+            rows.append((kn, shape))
+        L.append(f"def comparatorShapes : List (String × String) := {lpairs(rows)}")
+
+    guard(comparator_shapes)
+
     def methods():
         for cname, out in [("NoneObject", "noneObjectMethods"), ("TypeMatcherInstance", "typeMatcherInstanceMethods")]:
             cls = find_def(tree, cname)
@@ -742,6 +773,54 @@ def extract_adapters(errors):
 
     guard(fieldtypes)
 
+    def writers():
+        """C17: structural facts of the writer lifecycles (who writes the header, who flushes on close, rotation)."""
+        st = parse("flow/record/stream.py")
+        ad = parse("flow/record/adapter/stream.py")
+
+        def hdr(s):
+            return bool(re.search(r"if not self\.header_written:\s*\n\s*self\.writeheader\(\)", s))
+
+        w = src(find_def(st, "write", cls="RecordStreamWriter"))
+        f = src(find_def(st, "flush", cls="RecordStreamWriter"))
+        c = src(find_def(st, "close", cls="RecordStreamWriter"))
+        swf = src(find_def(ad, "flush", cls="StreamWriter"))
+        swc = src(find_def(ad, "close", cls="StreamWriter"))
+        L.append(f"def streamWriteWritesHeader : Bool := {lbool(hdr(w))}")
+        L.append(f"def streamFlushWritesHeader : Bool := {lbool(hdr(f) and 'self.stream.flush()' in swf)}")
+        L.append("def streamCloseWritesHeader : Bool := "
+                 + lbool(hdr(c) or "writeheader" in c or "self.flush()" in c or "self.flush()" in swc
+                         or "self.stream.flush()" in swc))
+        av = parse("flow/record/adapter/avro.py")
+        fl = src(find_def(av, "flush", cls="AvroWriter"))
+        L.append("def avroFlushCreatesWriter : Bool := "
+                 + lbool("if not self.writer:" in fl and "fastavro.write.Writer(" in fl))
+        ab = parse("flow/record/adapter/__init__.py")
+        ex = find_def(ab, "__exit__", cls="AbstractWriter")
+        body = [src(s) for s in ex.body if not (isinstance(s, ast.Expr) and isinstance(s.value, ast.Constant))]
+        L.append(f"def exitFlushesThenCloses : Bool := {lbool(body == ['self.flush()', 'self.close()'])}")
+        rot = src(find_def(st, "rotate_existing_file", cls="PathTemplateWriter"))
+        L.append("def rotateNeverOverwrites : Bool := "
+                 + lbool(bool(re.search(r"while os\.path\.exists\(dst\):", rot)) and "seq += 1" in rot))
+        m = re.search(r"stamp = '\{now:(.*?)\}'\.format\(now=now\)", rot)
+        if not m:
+            raise ExtractError("rotate_existing_file: stamp format not recognised")
+        L.append(f"def rotateStampFormat : String := {lstr(m.group(1))}")
+        rsp = src(find_def(st, "record_stream_for_path", cls="PathTemplateWriter"))
+        i_rot, i_new = rsp.find("self.rotate_existing_file(path)"), rsp.find("RecordWriter(path)")
+        L.append(f"def templateRotatesBeforeOpen : Bool := {lbool(0 <= i_rot < i_new)}")
+        sp = parse("flow/record/adapter/split.py")
+        nx = src(find_def(sp, "_next_path", cls="SplitWriter"))
+        L.append("def splitNextPathShape : Bool := "
+                 + lbool("str(self.file_count).rjust(self.suffix_length, '0')" in nx
+                         and "path.with_suffix(f'.{suffix}{path.suffix}')" in nx and "self.file_count += 1" in nx))
+        sw = src(find_def(sp, "write", cls="SplitWriter"))
+        seq = [x for x in re.findall(r"self\.flush\(\)|self\.close\(\)|self\.written = 0|self\.writer = RecordWriter\(",
+                                     sw.split("if self.written >= self.count:")[-1])] if "if self.written >=" in sw else []
+        L.append("def splitRotateSequence : List String := " + llist(lstr(x) for x in seq))
+
+    guard(writers)
+
     L += ["", "end FlowRecord.Gen", ""]
     return "Adapters", "\n".join(L)
 
@@ -795,6 +874,22 @@ def run():
         name, content = fn(errors)
         if write_if_changed(name, content):
             changed.append(name)
+    from .extract_pipeline import extract_pipeline  # C10 / C16 structural facts -> Gen/Pipeline.lean
+    name, content = extract_pipeline(errors)
+    if write_if_changed(name, content):
+        changed.append(name)
+    from .extract_record import extract_record  # C05 / C06 / C12 / C15 record-layer facts -> Gen/Record.lean
+    name, content = extract_record(errors)
+    if write_if_changed(name, content):
+        changed.append(name)
+    from .extract_textout import extract_textout  # C20 / C19 format strings and shapes -> Gen/TextOut.lean
+    name, content = extract_textout(errors)
+    if write_if_changed(name, content):
+        changed.append(name)
+    from .extract_formats import extract_formats  # C13 / C14 timestamp and JSON facts -> Gen/Formats.lean
+    name, content = extract_formats(errors)
+    if write_if_changed(name, content):
+        changed.append(name)
     cross_check(env, errors)
     if errors:
         raise ExtractError("; ".join(errors))
